@@ -27,6 +27,14 @@ CHECKS = {
          "The header routine is called for every (format, size) through a verif-tagged export and compared with the arithmetic statement of the header (thorough: all 1.36e8 points, exhaustive; quick: every 257th size plus all sizes within 300 bytes of each boundary); real items of all 14 formats are built at the 255|256, 65535|65536 and 16777215|+1 boundaries, encoded, and decoded back.",
          "Real items use one shared element value per format; the exhaustive part covers the header routine, not each factory's own limit check (those are exercised at the boundaries only).",
          "DESIGN.md §5 C13"),
+ "C12": ("exploration", "domain-table monitor (math/big) over every factory x Go argument type x boundary value, direct and through FillVariables",
+         "Every numeric factory is called with every accepted Go integer/float type at and beyond every range boundary (node range and Go type range), binary literals, strings over all of Unicode, ~3000 variable-name candidates in 8 positions, structural rules and message header constraints; the call must refuse, or the value read back from ToBytes()/String() must be the mathematical argument.",
+         "A panic of any kind counts as refusal; boundary tables plus random values, not the whole of each 64-bit type.",
+         "DESIGN.md §5 C12"),
+ "C14": ("exploration", "table oracle over exhaustively enumerated header values; every constructed message decoded back",
+         "All 65536 (PType,SType) pairs, all 65536 session ids per request constructor, all status/reason codes, all 65536 (pType,sType) pairs of reject.req for reason 2 and for another reason, every request-kind x response-constructor pair: bytes, Type() and hsms.Parse of the bytes are compared with the layout table of the property.",
+         "System bytes and the unconstrained header bytes are boundary + random values; NewHSMSControlMessage with more than ten bytes is outside the stated domain.",
+         "DESIGN.md §5 C14"),
 }
 
 NOT_YET = {}
